@@ -154,6 +154,11 @@ def k_call(spec):
     f = getattr(mod, fn)
     args = [denorm(a) for a in spec.get("args", [])]
     with Env(spec):
+        for prev in spec.get("before", []):
+            try:
+                f(*([denorm(prev)] if not isinstance(prev, list) else [denorm(a) for a in prev]))  # a list = the argument list
+            except Exception:  # noqa: BLE001
+                pass
         try:
             with warnings.catch_warnings(record=True) as ws:
                 warnings.simplefilter("always")
